@@ -1086,6 +1086,7 @@ func genConc(run *hx.Run, r *hx.Rand, fixed bool, viaHandshake bool) {
 func runConc(w *world, ksteps []string, target, p string, keep, viaHandshake bool, kind string) {
 	run := w.run
 	nd := w.nodes[0]
+	w.jc.Evs = append(w.jc.Evs, jev{K: "conc", Gid: target, P: p, B: keep, T: map[bool]int{false: 0, true: 1}[viaHandshake]})
 	multicast.VerifSwapCache(nd.cache)
 	nd.svc.VerifUnthrottle()
 	done := make(chan struct{})
@@ -1131,7 +1132,6 @@ func runConc(w *world, ksteps []string, target, p string, keep, viaHandshake boo
 	run.OracleChecked(1)
 	w.checkGroups(0, "")
 	nd.sub.pubs = nil
-	w.jc.Evs = append(w.jc.Evs, jev{K: "conc", Gid: target, P: p, B: keep, T: map[bool]int{false: 0, true: 1}[viaHandshake]})
 	run.Hist(fmt.Sprintf("conc.handlerFirst=%v", handlerFirst))
 	run.Hist(fmt.Sprintf("conc.lookupFired=%v", fired))
 	if viaHandshake {
